@@ -28,6 +28,7 @@ type c19Phase struct {
 type c19Entry struct {
 	Token   string `json:"token"`
 	Payload string `json:"payload"`
+	Second  int    `json:"second"` // seconds the harness had moved the clock by when the entry was appended
 }
 
 type c19List struct {
@@ -59,8 +60,11 @@ func c19Run(cs *c19Case, r *gen.Rand) {
 	w := wal.New(mutable, store, wal.Logger(world.Nop))
 	cs.Appends, cs.Errs = nil, nil
 	ctx := context.Background()
+	moved := 0
 	for _, ph := range cs.Phases {
 		mutable.Advance(time.Duration(ph.AdvanceSec) * time.Second)
+		moved += ph.AdvanceSec
+		at := moved
 		var wg sync.WaitGroup
 		var mu sync.Mutex
 		for _, p := range ph.Payloads {
@@ -73,7 +77,7 @@ func c19Run(cs *c19Case, r *gen.Rand) {
 				if err != nil {
 					cs.Errs = append(cs.Errs, err.Error())
 				} else {
-					cs.Appends = append(cs.Appends, c19Entry{Token: tok, Payload: p})
+					cs.Appends = append(cs.Appends, c19Entry{Token: tok, Payload: p, Second: at})
 				}
 				mu.Unlock()
 			}()
@@ -147,7 +151,11 @@ func c19Coq(cs *c19Case) string {
 		}
 		ls[i] = fmt.Sprintf("{| wl_from := %s; wl_max := %d%%nat; wl_obs := %s |}", c19Num(q.From), max0(q.Max), obs)
 	}
-	return fmt.Sprintf("{| wa_appends := %s; wa_lists := [%s] |}", ents(cs.Appends), strings.Join(ls, ";\n "))
+	secs := make([]string, len(cs.Appends))
+	for i, e := range cs.Appends {
+		secs[i] = fmt.Sprintf("%d", e.Second)
+	}
+	return fmt.Sprintf("{| wa_appends := %s; wa_seconds := [%s]%%N; wa_lists := [%s] |}", ents(cs.Appends), strings.Join(secs, "; "), strings.Join(ls, ";\n "))
 }
 
 func max0(n int) int {
